@@ -451,9 +451,17 @@ def _gram(case, base):
         tot = sympy.Integer(0)
         for (i,), co in P.terms():
             tot += co * _normal_moment(mu, var, i + j)
-        tot = sympy.nsimplify(sympy.simplify(tot))
+        tot = sympy.expand(tot)
         truth = Fraction(1) if j == 0 else moment_from_cumulants(kap, j)
-        if sympy.simplify(tot - _sym(truth)) != 0:
+        diff = sympy.simplify(tot - _sym(truth))
+        if diff != 0 and not diff.free_symbols:
+            # radicals (powers of sqrt(2) from the Hermite polynomials, sqrt(kappa_2)) that simplify() left standing: decide numerically
+            try:
+                if abs(complex(pd.robust_numeric(diff))) <= 1e-40 * max(1.0, abs(float(truth))):
+                    diff = sympy.Integer(0)
+            except Exception:
+                pass
+        if diff != 0:
             return dict(base, status="violation", bucket="gram_charlier_moment", detail={"cumulants": case["cumulants"], "j": j, "polar": str(tot), "truth": fs(truth)})
     # numeric cross-check of the j=0 integral at 30 digits on the expression itself
     mpmath.mp.dps = 30
